@@ -146,23 +146,42 @@ func (e *Emitter) Script(o *Obligation) string {
 	sd := e.ss.Decls()
 	b.WriteString(e.ss.StrDecls())
 	b.WriteString(sd)
-	// spec functions actually referenced (defines may reference earlier ones); axioms are always emitted;
-	// a lemma is emitted only when the VC mentions one of the spec functions the lemma is about
+	// Relevance closure (fixpoint): the symbols of the VC make spec functions relevant; a relevant spec function makes the
+	// symbols of its declaration/definition relevant; a lemma is relevant when it speaks about a relevant spec function,
+	// and then its symbols are relevant too. Axioms are always emitted.
 	specNames := map[string]bool{}
 	for _, f := range e.reg.order {
 		specNames[f.SMT] = true
 	}
+	for _, a := range e.reg.axioms {
+		for s := range symbolsOf(a) {
+			used[s] = true
+		}
+	}
+	need := map[string]bool{}
+	lemmaIn := map[string]bool{}
 	var lemmas []string
 	for changed := true; changed; {
 		changed = false
-		for _, a := range e.reg.lemmaAxioms {
-			already := false
-			for _, l := range lemmas {
-				if l == a {
-					already = true
+		for i := len(e.reg.order) - 1; i >= 0; i-- {
+			f := e.reg.order[i]
+			if need[f.SMT] || !used[f.SMT] {
+				continue
+			}
+			need[f.SMT] = true
+			changed = true
+			def := ""
+			for _, r := range o.Reveal {
+				if r == f.Name {
+					def = f.Def
 				}
 			}
-			if already {
+			for s := range symbolsOf(f.Decl, def) {
+				used[s] = true
+			}
+		}
+		for _, a := range e.reg.lemmaAxioms {
+			if lemmaIn[a] {
 				continue
 			}
 			rel := false
@@ -172,32 +191,12 @@ func (e *Emitter) Script(o *Obligation) string {
 				}
 			}
 			if rel {
+				lemmaIn[a] = true
 				lemmas = append(lemmas, a)
+				changed = true
 				for s := range symbolsOf(a) {
 					used[s] = true
 				}
-				changed = true
-			}
-		}
-	}
-	for _, a := range e.reg.axioms {
-		for s := range symbolsOf(a) {
-			used[s] = true
-		}
-	}
-	need := map[string]bool{}
-	for i := len(e.reg.order) - 1; i >= 0; i-- {
-		f := e.reg.order[i]
-		if used[f.SMT] || need[f.SMT] {
-			need[f.SMT] = true
-			def := ""
-			for _, r := range o.Reveal {
-				if r == f.Name {
-					def = f.Def
-				}
-			}
-			for s := range symbolsOf(f.Decl, def) {
-				used[s] = true
 			}
 		}
 	}
@@ -242,6 +241,11 @@ type Solver struct {
 var solvers = []Solver{
 	{"z3-5.1.0", func(f string, to int) []string { return []string{"z3-new", fmt.Sprintf("-T:%d", to), f} }},
 	{"z3-4.8.12", func(f string, to int) []string { return []string{"z3", fmt.Sprintf("-T:%d", to), f} }},
+	// pure E-matching configuration (no model-based instantiation, no automatic tactic selection): on VCs whose
+	// quantifiers all carry patterns this is the Boogie/Dafny setting; MBQI diverges on uninterpreted sorts otherwise
+	{"z3-5.1.0-ematch", func(f string, to int) []string {
+		return []string{"z3-new", fmt.Sprintf("-T:%d", to), "smt.auto_config=false", "smt.mbqi=false", f}
+	}},
 	{"cvc5-1.0.3", func(f string, to int) []string {
 		return []string{"cvc5", fmt.Sprintf("--tlimit=%d", to*1000), f}
 	}},
